@@ -500,6 +500,11 @@ pub fn break_it(doc: &ANode, r: &Rendered, k: usize, rng: &mut Rng, fragment: bo
             b(format!("{}{}", d, t), "doctype", true)
         }
         27 => {
+            if rng.chance(1, 3) {
+                // after "<?xml" only XML white space starts a declaration: form feed, vertical tab, NBSP do not
+                let c = *rng.pick(&["\u{c}", "\u{b}", "\u{a0}", "\u{85}"]);
+                return b(format!("<?xml{}version=\"1.0\"?>{}", c, t), "declaration-target-followed-by-non-xml-space", true);
+            }
             let v = *rng.pick(&["1.1", "2.0"]);
             b(format!("<?xml version=\"{}\"?>{}", v, t), "version-not-1.0", true)
         }
